@@ -65,6 +65,7 @@ class Contract:
         self.map_collect = None
         self.into_collect = None
         self.instantiate = {}
+        self.str_slices = []
         self.let_types = {}
         self.rename_types = {}
         self.loop_iter = {}
@@ -137,6 +138,9 @@ def parse_contracts(path):
             last = None
         elif word == 'chars_iters':
             cur.chars_iters = rest.split()
+            last = None
+        elif word == 'str_slices':
+            cur.str_slices = rest.split()
             last = None
         elif word == 'instantiate':
             pv, pty = rest.split(None, 1)
@@ -960,6 +964,97 @@ def parse_lalrpop(rel):
     return types, alts
 
 
+def lalrpop_terminals(rel):
+    """terminal NAME -> ('lit'|'regex', text) from the grammar's `match { .. } else { .. }` block"""
+    src = open(os.path.join(REPO, rel)).read()
+    out = {}
+    for m in re.finditer(r'(r#"(?P<raw2>.*?)"#|r"(?P<raw>(?:[^"\\]|\\.)*)"|"(?P<lit>(?:[^"\\]|\\.)*)")\s*=>\s*(?P<name>[A-Z][A-Z0-9_]*)\s*,', src):
+        if m.group('lit') is not None:
+            out[m.group('name')] = ('lit', m.group('lit'))
+        else:
+            out[m.group('name')] = ('regex', m.group('raw') if m.group('raw') is not None else m.group('raw2'))
+    return out
+
+
+def regex_shape(rx):
+    """(literal ASCII prefix, literal ASCII suffix, minimal length in chars) of every string matched by the regex `rx`
+    (subset: literals, escapes, `.`, classes, groups with alternation, `? * +`).  Used to state what the generated lexer hands to an action."""
+    pos = [0]
+
+    def parse_alt():
+        alts = [parse_seq()]
+        while pos[0] < len(rx) and rx[pos[0]] == '|':
+            pos[0] += 1
+            alts.append(parse_seq())
+        return alts
+
+    def parse_seq():
+        atoms = []
+        while pos[0] < len(rx) and rx[pos[0]] not in '|)':
+            c = rx[pos[0]]
+            if c == '(':
+                pos[0] += 1
+                if rx.startswith('?:', pos[0]):
+                    pos[0] += 2
+                sub = parse_alt()
+                assert rx[pos[0]] == ')'
+                pos[0] += 1
+                atom = ('group', sub)
+            elif c == '[':
+                j = pos[0] + 1
+                if rx[j] == '^':
+                    j += 1
+                if rx[j] == ']':
+                    j += 1
+                while rx[j] != ']':
+                    j += 2 if rx[j] == '\\' else 1
+                pos[0] = j + 1
+                atom = ('class', None)
+            elif c == '\\':
+                e = rx[pos[0] + 1]
+                pos[0] += 2
+                atom = ('lit', e) if e in '.\\"\'/[](){}|?*+^$-' else ('class', None)
+            elif c == '.':
+                pos[0] += 1
+                atom = ('class', None)
+            else:
+                pos[0] += 1
+                atom = ('lit', c)
+            q = None
+            if pos[0] < len(rx) and rx[pos[0]] in '?*+':
+                q = rx[pos[0]]
+                pos[0] += 1
+            atoms.append((atom, q))
+        return atoms
+
+    def minlen_seq(atoms):
+        n = 0
+        for (kind, val), q in atoms:
+            one = min(minlen_seq(a) for a in val) if kind == 'group' else 1
+            n += 0 if q in ('?', '*') else one
+        return n
+
+    alts = parse_alt()
+    if pos[0] != len(rx):
+        raise ExtractError('regex_shape: cannot read %r' % rx)
+    minlen = min(minlen_seq(a) for a in alts)
+    pre = suf = ''
+    if len(alts) == 1:
+        atoms = alts[0]
+        for (kind, val), q in atoms:
+            if kind == 'lit' and q is None and ord(val) < 128:
+                pre += val
+            else:
+                break
+        if len(pre) < len(atoms):
+            for (kind, val), q in reversed(atoms):
+                if kind == 'lit' and q is None and ord(val) < 128:
+                    suf = val + suf
+                else:
+                    break
+    return pre, suf, minlen
+
+
 def lalrpop_sym_type(sym, types):
     """Rust type of the value a grammar symbol produces"""
     sym = sym.strip()
@@ -1212,6 +1307,21 @@ class Assembler:
                 b = b[:off] + ph + b[off:]
             b = rewrite_format(b, c.src, base_line, log, helpers, re.sub(r'\W+', '_', key))
             b = apply_rewrites(b, c.src, base_line, log)
+            for sv in c.str_slices:
+                # R23: byte-range slicing of a `&str` named by the contract: `&v[a..]`, `&v[a..b]`, `&v[..]` -> boundary fns
+                # `str_slice_from(v, a)`, `str_slice(v, a, b)`, `str_full(v)` (std_specs.rs) whose ASSUMED contracts carry std's
+                # char-boundary precondition in a form Verus can discharge (an ASCII prefix / suffix)
+                def _r23(m):
+                    a_, dots, b_ = m.group(1).strip(), m.group(2), m.group(3).strip()
+                    if not a_ and not b_:
+                        return 'str_full(%s)' % sv
+                    if not b_:
+                        return 'str_slice_from(%s, %s)' % (sv, a_)
+                    return 'str_slice(%s, %s, %s)' % (sv, a_ or '0', b_)
+                b = re.sub(r'\b%s\s*\.\s*len\s*\(\s*\)' % re.escape(sv), 'str_len(%s)' % sv, b)
+                b, n23 = re.subn(r'&\s*%s\s*\[([^\[\]]*?)(\.\.)([^\[\]]*?)\]' % re.escape(sv), _r23, b)
+                if n23:
+                    log.append({'rule': 'R23', 'where': '%s:%d' % (c.src, base_line), 'text': '%d slice(s) of &str %s -> str_slice*/str_full' % (n23, sv)})
             if c.map_collect:
                 b = rewrite_map_collect(b, c.map_collect, key, c.src, base_line, log)
             if c.into_collect:
@@ -1354,6 +1464,7 @@ class Assembler:
             if x.startswith('skip='):
                 skips = [y for y in x[5:].split('|') if y]
         types, alts = parse_lalrpop(rel)
+        terms = lalrpop_terminals(rel)
         n = 0
         for a in alts:
             key = 'action %s_%d' % (a['nt'], a['k'])
@@ -1362,6 +1473,7 @@ class Assembler:
                 continue
             params = []
             names = []
+            shapes = []
             for idx, (nm, sym) in enumerate(a['symbols']):
                 ty = lalrpop_sym_type(sym, types)
                 pn = nm or ('p%d' % idx)
@@ -1369,6 +1481,12 @@ class Assembler:
                     continue   # unselected terminal (punctuation / keyword): not passed to the action
                 params.append('%s: %s' % (pn, ty))
                 names.append(pn)
+                if ty == "&'static str" and sym in terms and terms[sym][0] == 'regex':
+                    # ASSUMED (generated lexer): a terminal's text matches the terminal's regex; what the actions and the token helpers
+                    # rely on is derived mechanically from the regex: literal ASCII prefix / suffix and minimal length
+                    pre, suf, mn = regex_shape(terms[sym][1])
+                    sq = lambda t: ('seq![%s]' % ', '.join("'%s'" % ('\\' + ch if ch in "'\\" else ch) for ch in t)) if t else 'Seq::<char>::empty()'
+                    shapes.append('tok_shape(%s@, %s, %s, %d)' % (pn, sq(pre), sq(suf), mn))
             action = a['action'].replace('<>', ', '.join(names))
             ret = types[a['nt']]
             log = []
@@ -1378,6 +1496,9 @@ class Assembler:
             rty = ('core::result::Result<%s, RevalParseError>' % ret) if a['fallible'] else ret
             fname = 'action_%s_%d' % (a['nt'], a['k'])
             first = self.emit('pub fn %s(%s) -> %s' % (fname, ', '.join(params), rty))
+            if shapes:
+                self.emit('    requires\n' + ''.join('        %s,\n' % sh for sh in shapes).rstrip('\n'))
+                self.rewrites.append({'rule': 'T1', 'where': '%s:%d' % (rel, a['line']), 'text': 'token shape from the terminal regex: ' + '; '.join(shapes)})
             self.emit(action + '\n')
             last = len(self.lines)
             self.linemap.append((first, last, {'kind': 'fnbody', 'fn': key, 'clause': key + '.safety', 'tags': [tag], 'src': '%s:%d' % (rel, a['line'])}))
